@@ -11,6 +11,8 @@ on a distance-independent and on a distance-dependent package:
  (c) flag-1 bands  vs  flag-4 bands carrying (log10 F - 0.5 (s/F)^2/ln10, |s/F|/ln10)      -> identical to 1e-12
  (h) ONE Source object fitted, its valid / flux / error re-assigned (each alone and combined), fitted again
                                                                           -> bit-identical to a fresh Source with that content
+ (r) the photometry held as int64 / int32 / big-endian / read-only / strided arrays, lists, tuples, float32
+                                                                          -> same fit as float64 arrays with the same values
  (d) a model on the forbidden side of a limit with confidence 1                           -> chi2 >= 1e30
  (e) chi2 = sum over fitted bands of ((lf - predicted)/le)^2 + sum over limits on whose forbidden side
      the reported model lies of -2 ln(1-c)  (arithmetic check on the reported predicted fluxes; and, in the
@@ -50,6 +52,11 @@ REQUIRED_BRANCHES = ['flag0', 'flag1', 'flag2', 'flag3', 'flag4', 'flag9', 'conf
                      'exact_tie_indep', 'exact_tie_dist', 'exact_tie_model',
                      'indep_files', 'indep_cube_wav', 'indep_cube_wav_memmap',
                      'n_fitted_0', 'n_fitted_1', 'n_fitted_2', 'pair_conf0_singular', 'pair_swap09', 'pair_swap09_singular',
+                     'rep_float32', 'rep_int64', 'rep_int32', 'rep_list_int', 'rep_bigendian_int32', 'rep_bigendian', 'rep_readonly',
+                     'rep_list_float', 'rep_tuple_float', 'rep_valid_float', 'rep_valid_int32', 'rep_noncontiguous',
+                     'rep_valid_uint8', 'rep_valid_uint16', 'rep_valid_int8', 'rep_route_ascii', 'rep_route_dict', 'rep_route_copy',
+                     'rep_route_deepcopy', 'rep_route_pickle', 'rep_route_attributes_reordered',
+                     'dist_remove_resolved', 'resolved_mask_on_steep_band', 'resolved_changes_result', 'pair_flag4_on_resolving_band',
                      'low_snr', 'same_object_valid', 'same_object_flux', 'same_object_error', 'same_object_combined']
 ASSUMPTIONS = ['IEEE rounding is not modelled: model comparison tolerance 1e-9 x condition number; paired real runs are '
                'compared to 1e-12 relative (they are bit-identical on the unchanged tree)',
@@ -64,6 +71,11 @@ ASSUMPTIONS = ['IEEE rounding is not modelled: model comparison tolerance 1e-9 x
                'failures of clauses owned by other properties (source modified: C11; n_data: C05; ranking: C04) are reported as broken '
                'correspondence (violates=None), not as C03 violations',
                'with use_memmap=True (float32 model fluxes) only the paired real runs and the penalty arithmetic are checked',
+               'with Fitter(remove_resolved=True) (a share of the distance-dependent packages, built so that the rule bites: one band '
+               'resolved at every trial distance but the last) the documented rule removes (model, distance) cells resolved in any band '
+               'with valid > 0: a flag-9 band and a limit of any confidence count, a flag-0 band does not; so pairs (b) (confidence 0 vs '
+               'flag 0) and (a\') (0 <-> 9) compare sources with legitimately different masks and are not applied there; all other '
+               'pairs, in particular (c) flag 1 <-> flag 4 on the resolving band, are',
                'the distance-dependent mode is checked on the real code only (paired runs + penalty arithmetic); its model '
                'correspondence is C02']
 EXHAUSTIVE = {'quick': False, 'thorough': True}
@@ -136,12 +148,12 @@ def benign_values(f):
     return [float('%.3g' % (abs(f) * 1.7)), float('%.3g' % (abs(f) * 0.13))]
 
 
-def gen_source(rng, vec, models, wavs, directed=None, ign=None, lowsn=False):
+def gen_source(rng, vec, models, wavs, directed=None, ign=None, lowsn=False, sc_range=(-0.3, 0.6)):
     """underlying photometry for one flag vector: linear (F, sigma) for every band, limit (flux, confidence),
     two independent draws of ignored content"""
     nb = len(vec)
     m = rng.randrange(len(models))
-    sc0 = rng.uniform(-0.3, 0.6)
+    sc0 = rng.uniform(*sc_range)
     lin, lim, ign_a, ign_b = [], [], [], []
     for j in range(nb):
         base = models[m][j] * 10 ** (-2 * sc0) * 10 ** rng.uniform(-0.25, 0.25)
@@ -218,6 +230,40 @@ def gen_case(rng, vectors, directed_ids=None, fmt=None):
         fmt = rng.choice(['files', 'files', 'cube_wav', 'cube_wav_memmap'])
     return dict(wavs=wavs, tab_w=tw, tab_chi=chi, models=models, av=av, kind=kind, fmt=fmt,
                 aps=aps, grow=grow, drange=[dmin, dmax], theta=theta, step=step, sources=sources)
+
+
+RESOLVED_VECTORS = [[4, 1, 1, 0], [1, 4, 3, 1], [4, 4, 1, 9], [1, 1, 4, 2]]
+
+
+def make_resolved(case, rng, jstar=None, replant=True):
+    """rewrite the distance-dependent part of a case so that `Fitter(remove_resolved=True)` bites: one band (`steep_band`) whose
+    flux grows steeply with aperture (power-law index 5-7: after the d^-2 dilution the surface brightness of the per-distance
+    fluxes peaks at the LAST trial aperture, so every trial distance but the last is resolved in that band), the other bands
+    compact (index 0.3-1.5); all trial apertures inside the table; >= 3 trial distances; sources planted near dmin"""
+    nb, nm = len(case['wavs']), len(case['models'])
+    a0 = float('%.3g' % (10 ** rng.uniform(2., 3.5)))
+    aps = [float('%.4g' % (a0 * 10 ** (0.35 * i))) for i in range(5)]
+    dmin = nice(rng, 0.5, 2., 2)
+    ndist = rng.randint(3, 6)
+    step = rng.choice([0.1, 0.15, 0.2])
+    dmax = float('%.4g' % (dmin * 10 ** (step * (ndist - 1) * 0.97)))
+    if jstar is None:
+        fitted = [j for j, f in enumerate(case['sources'][0]['flags']) if f in (1, 4)]
+        jstar = rng.choice(fitted) if fitted else rng.randrange(nb)
+    grow = []
+    for i in range(nm):
+        rows = []
+        for j in range(nb):
+            pw = rng.uniform(5., 7.) if j == jstar else rng.uniform(0.3, 1.5)
+            rows.append([float('%.4g' % ((a / aps[-1]) ** pw)) for a in aps])
+        grow.append(rows)
+    theta = [float('%.4g' % (aps[0] / (dmin * 1000.) * rng.uniform(1.02, 1.3))) for _ in range(nb)]
+    case.update(aps=aps, grow=grow, drange=[dmin, dmax], theta=theta, step=step, resolved=True, steep_band=jstar)
+    if replant:
+        lo = math.log10(dmin)
+        case['sources'] = [gen_source(rng, src['flags'], case['models'], case['wavs'],
+                                      sc_range=(lo, lo + 0.6 * step * (ndist - 1))) for src in case['sources']]
+    return case
 
 
 def vector_groups(seed, tier):
@@ -318,6 +364,14 @@ def tie_cases(seed, tier, stream=PID):
         k += 1
 
 
+def resolved_cases(seed, stream=PID):
+    """directed: remove_resolved=True on packages where the rule bites, the steep band being a flag-4 / flag-1 / flag-9 band"""
+    for k in range(3):
+        rng = case_rng(seed, stream, 'resolved%d' % k)
+        case = gen_case(rng, RESOLVED_VECTORS, None, fmt='files')
+        yield make_resolved(case, rng, jstar=[0, 1, 2][k])
+
+
 def gen_cases(seed, tier):
     groups = vector_groups(seed, tier)
     n_directed = sum(1 for g in groups if g[1] is not None)
@@ -325,8 +379,13 @@ def gen_cases(seed, tier):
         if i == n_directed:
             for case in tie_cases(seed, tier):
                 yield case
+            for case in resolved_cases(seed):
+                yield case
         rng = case_rng(seed, PID, i)
-        yield gen_case(rng, vectors, dids, fmt=(FORMATS[i % 3] if dids is not None else None))
+        case = gen_case(rng, vectors, dids, fmt=(FORMATS[i % 3] if dids is not None else None))
+        if dids is None and rng.random() < 0.2:
+            make_resolved(case, rng)
+        yield case
 
 
 # ----------------------------------------------------------------------------- sources derived from one vector
@@ -411,7 +470,7 @@ def build_indep(case, d):
     return fitter, names
 
 
-def build_dist(case, d):
+def build_dist(case, d, remove_resolved=None):
     nm = len(case['models'])
     nb = len(case['wavs'])
     names = ['m%03d' % i for i in range(nm)]
@@ -423,8 +482,223 @@ def build_dist(case, d):
         flux = [[case['models'][i][j] * g for g in case['grow'][i][j]] for i in range(nm)]
         pk.write_convolved(d, fn, w, names, flux, np.zeros((nm, len(case['aps']))), apertures_au=case['aps'])
     ext = pk.make_extinction(case['tab_w'], case['tab_chi'])
-    fitter = pk.make_fitter(d, fnames, case['theta'], ext, case['av'], distance_range_kpc=case['drange'])
+    fitter = pk.make_fitter(d, fnames, case['theta'], ext, case['av'], distance_range_kpc=case['drange'],
+                            remove_resolved=bool(case.get('resolved')) if remove_resolved is None else remove_resolved)
     return fitter, names
+
+
+# ----------------------------------------------------------------------------- representations of the photometry
+
+INT_REPS = ['int64', 'int32', 'list_int', 'bigendian_int32']
+FLOAT_REPS = ['bigendian', 'readonly', 'list_float', 'tuple_float', 'valid_float', 'valid_int32', 'noncontiguous',
+              'valid_uint8', 'valid_uint16', 'valid_int8', 'route_ascii', 'route_dict', 'route_copy', 'route_deepcopy',
+              'route_pickle', 'route_attributes_reordered']
+
+
+def make_source_rep(tag, s, rep=None):
+    """a Source whose valid / flux / error are held in the given representation (the VALUES are those of `s`):
+    int64 / int32 / big-endian int32 arrays and lists of Python ints (values must be whole numbers), float32, big-endian
+    float64, read-only arrays, lists / tuples of floats, strided views, `valid` held as float64 or int32"""
+    from sedfitter.source import Source
+    if rep in (None, 'float64'):
+        return pk.make_source(tag, s['flags'], s['flux'], s['err'])
+    src = Source()
+    src.name = tag
+    src.x = 0.
+    src.y = 0.
+    flags, flux, err = list(s['flags']), list(s['flux']), list(s['err'])
+    if rep in ('int64', 'int32', 'bigendian_int32'):
+        dt = {'int64': np.int64, 'int32': np.int32, 'bigendian_int32': '>i4'}[rep]
+        src.valid = np.array(flags, dtype=dt)
+        src.flux = np.array([int(v) for v in flux], dtype=dt)
+        src.error = np.array([int(v) for v in err], dtype=dt)
+    elif rep == 'list_int':
+        src.valid = flags
+        src.flux = [int(v) for v in flux]
+        src.error = [int(v) for v in err]
+    elif rep == 'float32':
+        src.valid = np.array(flags, dtype=int)
+        src.flux = np.array(flux, dtype=np.float32)
+        src.error = np.array(err, dtype=np.float32)
+    elif rep == 'bigendian':
+        src.valid = np.array(flags, dtype='>i8')
+        src.flux = np.array(flux, dtype='>f8')
+        src.error = np.array(err, dtype='>f8')
+    elif rep == 'readonly':
+        src.valid = np.array(flags, dtype=int)
+        src.flux = np.array(flux, dtype=float)
+        src.error = np.array(err, dtype=float)
+        for a in (src.valid, src.flux, src.error):
+            a.setflags(write=False)
+    elif rep == 'list_float':
+        src.valid = flags
+        src.flux = [float(v) for v in flux]
+        src.error = [float(v) for v in err]
+    elif rep == 'tuple_float':
+        src.valid = tuple(flags)
+        src.flux = tuple(float(v) for v in flux)
+        src.error = tuple(float(v) for v in err)
+    elif rep == 'valid_float':
+        src.valid = np.array(flags, dtype=float)
+        src.flux = np.array(flux, dtype=float)
+        src.error = np.array(err, dtype=float)
+    elif rep == 'valid_int32':
+        src.valid = np.array(flags, dtype=np.int32)
+        src.flux = np.array(flux, dtype=float)
+        src.error = np.array(err, dtype=float)
+    elif rep in ('valid_uint8', 'valid_uint16', 'valid_int8'):
+        src.valid = np.array(flags, dtype={'valid_uint8': np.uint8, 'valid_uint16': np.uint16, 'valid_int8': np.int8}[rep])
+        src.flux = np.array(flux, dtype=float)
+        src.error = np.array(err, dtype=float)
+    elif rep == 'route_dict':
+        base = pk.make_source(tag, flags, flux, err)
+        src = Source.from_dict(base.to_dict())
+    elif rep == 'route_copy':
+        import copy
+        src = copy.copy(pk.make_source(tag, flags, flux, err))
+    elif rep == 'route_deepcopy':
+        import copy
+        src = copy.deepcopy(pk.make_source(tag, flags, flux, err))
+    elif rep == 'route_pickle':
+        import pickle
+        src = pickle.loads(pickle.dumps(pk.make_source(tag, flags, flux, err), 2))
+    elif rep == 'route_attributes_reordered':
+        # error first, then flux, then valid (the setters check lengths against whatever is already there)
+        src.error = np.array(err, dtype=float)
+        src.flux = np.array(flux, dtype=float)
+        src.valid = np.array(flags, dtype=int)
+    elif rep == 'noncontiguous':
+        src.valid = np.array([[f, 7] for f in flags], dtype=int)[:, 0]
+        src.flux = np.array([[v, -1.] for v in flux], dtype=float)[:, 0]
+        src.error = np.array([[v, -1.] for v in err], dtype=float)[:, 0]
+    else:
+        raise ValueError(rep)
+    return src
+
+
+def integerised(s):
+    """the source with whole-number content (what a catalogue of integer mJy fluxes holds): flag-1 flux and error >= 1, limits
+    with confidence 0 or 1, flag-4 bands with whole-number log flux and log error 1, ignored bands whole numbers or -999"""
+    flux, err = [], []
+    for f, x, e in zip(s['flags'], s['flux'], s['err']):
+        if f == 1:
+            flux.append(float(max(1, round(x)))); err.append(float(max(1, round(e))))
+        elif f in (2, 3):
+            flux.append(float(max(1, round(x)))); err.append(float(round(e)))
+        elif f == 4:
+            flux.append(float(round(x))); err.append(1.)
+        else:
+            ok = math.isfinite(x) and math.isfinite(e) and abs(x) < 1e9 and abs(e) < 1e9
+            flux.append(float(round(x)) if ok else -999.); err.append(float(round(e)) if ok else -999.)
+    return dict(flags=list(s['flags']), flux=flux, err=err)
+
+
+def fit_rep(fitter, s, rep, tag='rep'):
+    src = make_source_rep(tag, s, rep)
+    with common.quiet():
+        return pk.fit_arrays(fitter.fit(src))
+
+
+def representation_checks(fitter, S, vi, cond, branches, masked=False):
+    """the same photometry held in other representations.  returns (violates, detail) or (None, None).
+    * float values in big-endian / read-only / list / tuple / strided arrays, `valid` as float64 or int32: bit-identical
+    * float32 arrays: the float64 source holding the float32-rounded values, within a float32 budget
+    * whole-number content in int64 / int32 / big-endian int32 arrays and lists of ints: bit-identical to the float64 source
+      with the same values; if not, the statement's clause (c) is evaluated for the integer-held source against its
+      flag-4 twin (which necessarily is a float array)"""
+    ref = fit_rep(fitter, S, None)
+    k0 = (vi * 5 + len(S['flags'])) % len(FLOAT_REPS)
+    for rep in (FLOAT_REPS[k0], FLOAT_REPS[(k0 + 3) % len(FLOAT_REPS)], FLOAT_REPS[(k0 + 8) % len(FLOAT_REPS)]):
+        branches.add('rep_' + rep)
+        content, refr = S, ref
+        try:
+            if rep == 'route_ascii':
+                # the data-file route of sedfitter.fit: one line in the fitter data format, parsed by Source.from_ascii.  The
+                # format keeps 4 significant digits, so the reference is a plain source holding the PARSED values
+                from sedfitter.source import Source
+                if not all(math.isfinite(v) for v in S['flux'] + S['err']):
+                    continue
+                obj = Source.from_ascii(pk.make_source('asc', S['flags'], S['flux'], S['err']).to_ascii())
+                content = dict(flags=[int(v) for v in obj.valid], flux=[float(v) for v in obj.flux],
+                               err=[float(v) for v in obj.error])
+                if c_singular_values(content) or content['flags'] != list(S['flags']):
+                    continue
+                refr = fit_rep(fitter, content, None)
+                with common.quiet():
+                    got = pk.fit_arrays(fitter.fit(obj))
+            else:
+                got = fit_rep(fitter, S, rep)
+        except Exception as e:
+            return True, 'Fitter.fit raised %s: %s for the source %r held as / reached through %s' % (type(e).__name__, e, S, rep)
+        diff = same_bits(refr, got)
+        if diff:
+            # which clause of the statement fails for the source as held: the limit arithmetic (d)/(e) on its own result
+            err, _ = arithmetic(content, got, set(), masked=masked)
+            if err:
+                return True, ('the source %r held as / reached through %s: %s (plain float64 / int64 arrays with the same values: no '
+                              'such failure)' % (content, rep, err))
+            return None, ('the source %r held as / reached through %s is fitted differently from the same values in plain arrays: %s'
+                          % (content, rep, diff))
+    # float32
+    branches.add('rep_float32')
+    S32 = dict(flags=S['flags'], flux=[float(np.float32(v)) for v in S['flux']], err=[float(np.float32(v)) for v in S['err']])
+    if all(math.isfinite(v) for v in S32['flux'] + S32['err']) and not any(
+            f in (1, 2, 3) and x <= 0 or f in (1, 4) and e == 0 for f, x, e in zip(S32['flags'], S32['flux'], S32['err'])):
+        r64 = fit_rep(fitter, S32, None)
+        try:
+            r32 = fit_rep(fitter, S32, 'float32')
+        except Exception as e:
+            return True, 'Fitter.fit raised %s: %s for the source %r held as float32' % (type(e).__name__, e, S32)
+        # float32 evaluation of log10 and of sigma/F: every log flux / log error moves by a few float32 ulps
+        lv = [v for v in log_values(S32) if v is not None]
+        d32 = 2. ** -22 * (1. + max([abs(v[0]) for v in lv] + [1.]))
+        sw = sum(1. / v[1] ** 2 for f, v in zip([f for f in S32['flags'] if f in (1, 2, 3, 4)], lv) if f in (1, 4))
+        ia, ib = by_name(r64), by_name(r32)
+        for n in ia:
+            c = float(r64['chi2'][ia[n]])
+            if not math.isfinite(c) or c >= 1e29:
+                continue
+            lv_all = log_values(S32)
+            pred = r64['model_fluxes'][ia[n]]
+            if any(f in (2, 3) and abs(pred[j] - lv_all[j][0]) < 1e-5 * (1. + abs(lv_all[j][0]))
+                   for j, f in enumerate(S32['flags'])):
+                continue        # a limit decided within float32 rounding of its threshold
+            rel_le = 2. ** -22
+            bud = 4. * (2. * math.sqrt(abs(c) * sw) * d32 + sw * d32 ** 2 + 2. * rel_le * abs(c)) + 1e-9
+            if abs(float(r32['chi2'][ib[n]]) - c) > bud * max(1., cond):
+                return None, ('the source %r held as float32 gives chi2 = %r for model %s, float64 arrays with the same values give '
+                              '%r (float32 budget %.3g)' % (S32, float(r32['chi2'][ib[n]]), n, c, bud * max(1., cond)))
+    # whole-number content
+    SI = integerised(S)
+    if c_singular_values(SI):
+        return None, None
+    refi = fit_rep(fitter, SI, None)
+    for rep in (INT_REPS[vi % len(INT_REPS)], INT_REPS[(vi + 1) % len(INT_REPS)]):
+        branches.add('rep_' + rep)
+        try:
+            got = fit_rep(fitter, SI, rep)
+        except Exception as e:
+            return True, 'Fitter.fit raised %s: %s for the source %r held as %s' % (type(e).__name__, e, SI, rep)
+        diff = same_bits(refi, got)
+        if diff:
+            # clause (c) of the statement for the integer-held source: its flag-4 twin must give the same fit
+            twin = dict(flags=[4 if f == 1 else f for f in SI['flags']],
+                        flux=[transform(x, e)[0] if f == 1 else x for f, x, e in zip(SI['flags'], SI['flux'], SI['err'])],
+                        err=[transform(x, e)[1] if f == 1 else e for f, x, e in zip(SI['flags'], SI['flux'], SI['err'])])
+            t = fit_rep(fitter, twin, None)
+            ok_float = same_info(refi, t, 1e-6) is None
+            bad_int = same_info(got, t, 1e-6)
+            if 1 in SI['flags'] and ok_float and bad_int:
+                return True, ('(c) the flag-1 source %r held as %s and its flag-4 twin %r give different fits: %s (the same values '
+                              'in float64 arrays agree with the twin)' % (SI, rep, twin, bad_int))
+            return None, ('the source %r held as %s is fitted differently from the same values in float64 arrays: %s'
+                          % (SI, rep, diff))
+    return None, None
+
+
+def c_singular_values(s):
+    """whole-number content that is no longer a valid source (cannot happen with integerised(): kept as a guard)"""
+    return any(f in (1, 2, 3) and x <= 0 or f in (1, 4) and e == 0 for f, x, e in zip(s['flags'], s['flux'], s['err']))
 
 
 def run_fit(fitter, s, tag):
@@ -564,7 +838,7 @@ def log_values(s):
     return out
 
 
-def arithmetic(s, a, branches, tie_name=None, mode=''):
+def arithmetic(s, a, branches, tie_name=None, mode='', masked=False):
     """(e)/(d): chi2 reported = fitted squares + penalties of the limits on whose forbidden side the reported
     predicted fluxes lie.  returns (error or None, n_relaxed)"""
     lv = log_values(s)
@@ -608,6 +882,8 @@ def arithmetic(s, a, branches, tie_name=None, mode=''):
             relaxed += 1
             continue
         got = float(a['chi2'][row])
+        if masked and got == float('inf'):
+            continue        # remove_resolved: every trial distance of this model is removed
         if hard:
             # the property promises chi2 >= 1e30 here and nothing more precise
             if not got >= 1e30:
@@ -731,14 +1007,18 @@ def check_mode(case, mode, fitter, names, use_model, branches, stats):
         n_fitted = sum(1 for f in S['flags'] if f in (1, 4))
         branches.add('n_fitted_%s' % (n_fitted if n_fitted < 3 else '3plus'))
         fields = ('av', 'sc', 'chi2', 'model_fluxes') if n_fitted > 0 else ('av', 'sc')
+        # With remove_resolved=True the documented rule removes (model, distance) cells that are resolved in any band with
+        # valid > 0: a limit (whatever its confidence) and a plot-only band count, an unused band does not.  There (b) and
+        # (a') compare sources whose removal masks legitimately differ, and are not applied.
+        masked = (mode == 'dist' and bool(case.get('resolved')))
         # (b) confidence 0 == flag 0
-        if 'conf0' in res:
+        if 'conf0' in res and not masked:
             branches.add('pair_conf0' if regular else 'pair_conf0_singular')
             diff = same_info(res['conf0'], res['limits_off'], 1e-12, fields=fields)
             if diff:
                 return fail('(b) limits with confidence 0 vs the same bands flagged 0', ('conf0', 'limits_off'), diff)
         # (a') a band flagged 0 vs the same band flagged 9: neither may influence anything
-        if 'swap09' in res:
+        if 'swap09' in res and not masked:
             branches.add('pair_swap09' if regular else 'pair_swap09_singular')
             diff = same_info(A, res['swap09'], 1e-12, fields=fields)
             if diff:
@@ -767,13 +1047,15 @@ def check_mode(case, mode, fitter, names, use_model, branches, stats):
         for k in ('to4', 'to1'):
             if k in res:
                 branches.add('pair_flag4')
+                if masked and vs[k]['flags'][case['steep_band']] != S['flags'][case['steep_band']]:
+                    branches.add('pair_flag4_on_resolving_band')
                 diff = same_info(A, res[k], 1e-12 * max(1., cond))
                 if diff:
                     return fail('(c) flag-1 bands vs flag-4 bands carrying the transformed values', ('S', k), diff)
         # (d), (e) arithmetic on the reported predicted fluxes
         for k in ('S', 'conf0', 'limits_off', 'to4', 'to1'):
             if k in res:
-                err, rel = arithmetic(vs[k], res[k], branches, tie_name=tie_name, mode=mode)
+                err, rel = arithmetic(vs[k], res[k], branches, tie_name=tie_name, mode=mode, masked=masked)
                 stats['relaxed'] += rel
                 if err:
                     return CaseResult(False, violates=True, branches=branches, detail='%s mode, (d)/(e): %s' % (mode, err))
@@ -781,6 +1063,10 @@ def check_mode(case, mode, fitter, names, use_model, branches, stats):
                     # ranking is C04's clause
                     return CaseResult(False, violates=None, branches=branches,
                                       detail='%s mode: chi2 not sorted: %r (C04)' % (mode, res[k]['chi2'].tolist()))
+        # representation of the photometry (dtype, byte order, writeability, container)
+        viol, det = representation_checks(fitter, S, vi, cond, branches, masked=masked)
+        if det:
+            return CaseResult(False, violates=viol, branches=branches, detail='%s mode, flags %r: %s' % (mode, S['flags'], det))
         # limits never enter the least-squares solution
         if 'limits_off' in res:
             B = res['limits_off']
@@ -838,6 +1124,21 @@ def run_case(case, use_model=True):
             dirs.append(d)
             fitter, names = builder(case, d)
             branches.add('mode_' + mode)
+            if mode == 'dist' and case.get('resolved'):
+                branches.add('dist_remove_resolved')
+                ext_mask = np.asarray(fitter.models.extended)
+                if ext_mask.ndim == 3 and ext_mask[:, :, case['steep_band']].any():
+                    branches.add('resolved_mask_on_steep_band')
+                    if not ext_mask[:, :, [j for j in range(ext_mask.shape[2]) if j != case['steep_band']]].all(axis=2)[
+                            ext_mask[:, :, case['steep_band']]].all():
+                        branches.add('resolved_cells_only_in_steep_band')
+                d2 = tempfile.mkdtemp(prefix='c03_')
+                dirs.append(d2)
+                plain, _ = build_dist(case, d2, remove_resolved=False)
+                for src in case['sources']:
+                    s0 = variants(src)['S']
+                    if same_bits(run_fit(fitter, s0, 'm'), run_fit(plain, s0, 'p')):
+                        branches.add('resolved_changes_result')
             r = check_mode(case, mode, fitter, names, use_model, branches, stats)
             if r is not None:
                 r.key = common.canon_hash(case)
